@@ -200,6 +200,7 @@ def run_shard(spec, acc, ctx):
     if spec.get("kind") == "marathon":
         run_marathon(spec, acc, ctx)
         return
+    gen.MIXED_ID_SIZES = True
     scheme = spec["scheme"]
     short = gen.SHORT[scheme]
     first = True
